@@ -7,8 +7,10 @@ from common import read_ndjson
 def c08(ctx):
     mc_cc14(ctx)
     edges_cc14(ctx)
-    res, trace = run_script(ctx, gen.random_plain(ctx.rng, "cc14", ctx.q(60000, 500000)), "random-cc14",
-                            history=True)
+    res, trace = run_script(ctx, gen.random_plain(ctx.rng, "cc14", ctx.q(60000, 500000)), "random-cc14")
+    # the same monitor in its literal, history form (backward scans over the recorded trace)
+    run_script(ctx, gen.random_plain(ctx.rng, "cc14", ctx.q(15000, 100000), seg=300), "random-cc14-history",
+               history=True)
     # twin-free canary: corrupt one reported value / fabricate one report
     canary(ctx, trace, corrupt_out("cc14", op=("feed",), need_report=ctx.rng.random() < 0.5))
     ctx.rule = ("design: TLC fixpoint of machine x C08-monitor (all 128 controller numbers, abstract values, "
@@ -68,7 +70,9 @@ def _corrupt_group_out(rows, rng, kind):
 def c11(ctx):
     mc_pn(ctx, with_run=False)
     edges_pn(ctx)
-    res, trace = run_script(ctx, gen.random_plain(ctx.rng, "pn", ctx.q(60000, 500000)), "random-pn", history=True)
+    res, trace = run_script(ctx, gen.random_plain(ctx.rng, "pn", ctx.q(60000, 500000)), "random-pn")
+    run_script(ctx, gen.random_plain(ctx.rng, "pn", ctx.q(12000, 80000), seg=250), "random-pn-history",
+               history=True)
     canary(ctx, trace, corrupt_out("pn", op=("feed",), need_report=ctx.rng.random() < 0.5))
     ctx.rule = ("design: TLC fixpoint of machine x C11-monitor (all 8 contributing controllers + 11 others, "
                 "abstract values, other message types, reset); code: every TLC edge on all 16 channels x 3 "
